@@ -29,3 +29,16 @@ func TestLockWaitDetection(t *testing.T) {
 		t.Fatal("parked worker mistaken for a lock wait")
 	}
 }
+
+// A RePush program re-enters once from the first callback and once more from a callback made by a
+// worker's Close flush.
+func TestRePushAlsoFromCloseFlush(t *testing.T) {
+	p := &Program{Max: 1, Reenter: RePush, Threads: [][]POp{{{Kind: PushNC, Seq: 7}, {Kind: PushNC, Seq: 8}, {Kind: Close}}}}
+	run := Execute(p, nil, nil)
+	if len(run.Findings) > 0 || run.Timeout {
+		t.Fatalf("findings %v timeout %v", run.Findings, run.Timeout)
+	}
+	if run.ReentrantPushes != 2 {
+		t.Fatalf("re-entrant pushes = %d, want 2 (first callback + Close flush)", run.ReentrantPushes)
+	}
+}
